@@ -237,7 +237,10 @@ class Bip32Base(ABC):
                                                                    key_data,
                                                                    key_net_ver,
                                                                    self.CurveType())
-            self.m_pub_key = self.m_priv_key.PublicKey()
+            try:
+                self.m_pub_key = self.m_priv_key.PublicKey()
+            except ValueError as ex:
+                raise Bip32KeyError("Invalid private key (it has no public key)") from ex
         # Public-only object
         else:
             # Check that key type matches the Bip curve
